@@ -27,7 +27,7 @@ func init() {
 		ID:    "C08",
 		Level: "exploration",
 		Rule: "E1 bounded-exhaustive enumeration, per width n in {1,2,4,8}: (split) every string of length ≤2 over all 256 byte values and of length ≤L over {00,01,7f,80,ff,a5,5a,'a'}: FromStr length and every word, Get at every index, ToStr∘FromStr; " +
-			"(pack) ToStr on every list of in-range words up to a width-dependent length (every partial-last-byte shape); (diff) FirstDiff on every ordered pair of strings of length ≤D over 6 bytes × every from in [0, words+2] × every end in [-1, words+2]; (diff, long) FirstDiff on every ordered pair of 48 strings of 8..19 bytes (4 stem variants × 3 tails) and on single-byte flips of 9- and 17-byte bases at every byte position × every from × 7 ends; (lists) FromStrs/ToStrs element-wise on every list of ≤3 strings over 4 strings. " +
+			"(pack) ToStr on every list of in-range words up to a width-dependent length (every partial-last-byte shape); (diff) FirstDiff on every ordered pair of strings of length ≤D over 6 bytes × every from in [0, words+2] × every end in [-1, words+2]; (diff, long) FirstDiff on every ordered pair of 48 strings of 8..19 bytes (4 stem variants × 3 tails) and on single-byte flips of bases of EVERY length 1..40 at every byte position × every from × 7 ends; (lists) FromStrs/ToStrs element-wise on every list of ≤3 strings over 4 strings. " +
 			"Oracle: the string's '0'/'1' rendering cut into n-bit groups. A case is one call; non-trivial when the string/list is non-empty.",
 		Assumptions: []string{"from < 0 and end < -1 are outside the statement and not called; long strings over the full byte alphabet are not enumerated"},
 		Run:         c08Run,
@@ -274,10 +274,13 @@ func c08Run(c *mc.Ctx) {
 			pairs = append(pairs, pair{a, b})
 		}
 	}
-	for _, n := range []int{9, 17} {
+	for n := 1; n <= 40; n++ {
 		base := c09Stem(n)
 		for p := 0; p < n; p++ {
 			for _, m := range []byte{0x80, 0x10, 0x01, 0xff} {
+				if n != 9 && n != 17 && m != 0x80 && m != 0x01 {
+					continue
+				}
 				fl := []byte(base)
 				fl[p] ^= m
 				pairs = append(pairs, pair{base, string(fl)}, pair{string(fl), base})
@@ -306,12 +309,31 @@ func c08Run(c *mc.Ctx) {
 			m = wb
 		}
 		var evals int64
+		rwa, rwb := refWords(pr.a, n), refWords(pr.b, n)
+		ref := func(from, end int) int {
+			lim := end
+			if end == -1 {
+				lim = len(rwa)
+			}
+			if lim > len(rwa) {
+				lim = len(rwa)
+			}
+			if lim > len(rwb) {
+				lim = len(rwb)
+			}
+			for i := from; i < lim; i++ {
+				if rwa[i] != rwb[i] {
+					return i
+				}
+			}
+			return lim
+		}
 		for from := 0; from <= m+1; from++ {
 			for ei, end := range []int{-1, from, from + 1, m - 1, m, m + 1, 64 / n} {
 				if end < -1 {
 					end = -1
 				}
-				want := refFirstDiff(pr.a, pr.b, n, from, end)
+				want := ref(from, end)
 				got, p := bwFirstDiff(n, pr.a, pr.b, from, end)
 				if p != "" || got != want {
 					c.Fail(4<<50|int64(k)<<20|int64(from)<<4|int64(ei), "FirstDiff", "FirstDiff", c08Case{Width: n, A: gen.Bytes(pr.a), B: gen.Bytes(pr.b), From: from, End: end}, p+fmt.Sprint(got), fmt.Sprint(want))
